@@ -637,11 +637,17 @@ class ExcelCompiler:
                         if child_cell.formula and child_cell.value is None:
                             # the cell was never calculated, do so before freezing
                             self.evaluate(child_address)
-                        child_cell.formula = None
-                        self.log.debug(f'Trimming {child_address}')
+                        cells_to_freeze.append(child_cell)
 
+        # a cell that cannot be evaluated ends the trim: nothing is changed
+        # before all values to freeze are known
+        cells_to_freeze = []
         for addr in output_addrs:
             walk_precedents(self.cell_map[addr.address])
+
+        for child_cell in cells_to_freeze:
+            child_cell.formula = None
+            self.log.debug(f'Trimming {child_cell.address.address}')
 
         # 4) check for any buried (not leaf node) inputs
         for addr in input_addrs:
